@@ -69,6 +69,14 @@ Theorem C06_frame_decodes : forall fl sq pid im sm b payload,
             d_hlen r = Z.of_N (len b) /\ d_plen r = Z.of_N (len payload).
 Proof. exact frame_decodes. Qed.
 
+(* the executable layout judge the correspondence run applies to the bytes the real Encode
+   produced (Spec.FrameLayout.frame_b) is sound for [frame]: whatever it accepts follows the
+   layout (and therefore decodes back, C06_frame_decodes) *)
+Theorem C06_frame_b_sound : forall fl sq pid im sm b,
+  wf b -> frame_b fl sq pid im sm b = true ->
+  frame fl sq pid im sm b /\ NoDup (keys im) /\ fl < 65536 /\ in_signed 32 sq.
+Proof. exact frame_b_sound. Qed.
+
 (* round trip: for all parameters, EVERY enumeration order [io], [so] of the two maps [im], [sm],
    every payload, every header-info size up to and including 65536 *)
 Theorem C06_roundtrip : forall fl sq pid im sm io so tl b payload,
